@@ -777,14 +777,18 @@ impl AId {
                 | AId::FontVariant
                 | AId::FontWeight
                 | AId::ImageRendering
+                | AId::Isolation
                 | AId::Kerning
                 | AId::LetterSpacing
+                | AId::LightingColor
                 | AId::MarkerEnd
                 | AId::MarkerMid
                 | AId::MarkerStart
                 | AId::Mask
+                | AId::MixBlendMode
                 | AId::Opacity
                 | AId::Overflow
+                | AId::PaintOrder
                 | AId::ShapeRendering
                 | AId::StopColor
                 | AId::StopOpacity
@@ -817,7 +821,9 @@ fn is_non_inheritable(id: AId) -> bool {
             | AId::Filter
             | AId::FloodColor
             | AId::FloodOpacity
+            | AId::Isolation
             | AId::Mask
+            | AId::MixBlendMode
             | AId::Opacity
             | AId::Overflow
             | AId::LightingColor
